@@ -149,11 +149,11 @@ def dpatLe : List DEdge → List DEdge → Bool
 
 /-- all ordered pairs of disjoint non-empty sub-lists of `S` (`_all_directed_hyperedges`, a set) -/
 def allDirected (S : List Nat) : List DEdge :=
-  (List.range S.length).flatMap fun a => (subsetsOfSize a S).flatMap fun src =>
+  dedup ((List.range S.length).flatMap fun a => (subsetsOfSize a S).flatMap fun src =>
     if a == 0 then [] else
     let rest := S.filter (!src.contains ·)
     (List.range (rest.length + 1)).flatMap fun b =>
-      if b == 0 then [] else (subsetsOfSize b rest).map fun tgt => (src, tgt)
+      if b == 0 then [] else (subsetsOfSize b rest).map fun tgt => (src, tgt))
 
 /-- `labeled_motif`: the hyperedges of `T` inside the sorted node list `S`, nodes replaced by rank `1..n` -/
 def dpattern (T : DHG) (S : List Nat) : List DEdge :=
@@ -194,6 +194,10 @@ def dNfCands (n : Nat) (E : DHG) : List (List Nat) :=
 def dNotFullSets (n : Nat) (E : DHG) (vis : List (List Nat)) : List (List Nat) := visitNew n vis (dNfCands n E)
 
 def dUpTo (n : Nat) (E : DHG) : DHG := E.filter (dsize · ≤ n)
+
+/-- the directed hypergraph with every node `x` renamed to `π x` (sides are stored sorted) -/
+def relabelDEdge (π : Nat → Nat) (e : DEdge) : DEdge := (isort (e.1.map π), isort (e.2.map π))
+def relabelDHG (π : Nat → Nat) (E : DHG) : DHG := E.map (relabelDEdge π)
 
 /-- `compute_directed_motifs(h, n, 0)['observed']` as (canonical pattern, count), in first-seen order -/
 def dirCensus (n : Nat) (E0 : DHG) : List (List DEdge × Nat) :=
